@@ -371,7 +371,95 @@ def check_history(task):
         shutil.rmtree(base, ignore_errors=True)
 
 
+def check_disk_text(task):
+    """Scripts that read their text from DISK (no `code` argument): positions must be faithful
+    to the file as Python decodes it.  Variants: a PEP 263 latin-1 file with non-ASCII bytes in
+    front of identifiers (own file and reached through an import); an unsaved buffer analysed
+    first under the same path, then the file analysed by path only."""
+    import parso
+    import tokenize as _tk
+    jedi = boot.boot()
+    env = boot.environment()
+    name = task['variant']
+    base = os.path.join(boot.scratch_root(), 'c17d', '%d_%s' % (os.getpid(), name))
+    shutil.rmtree(base, ignore_errors=True)
+    os.makedirs(base)
+    out = {'id': 'disk:' + name, 'fails': [], 'evals': 0, 'names_checked': 0, 'kinds': [],
+           'variants': 1}
+    try:
+        lib_text = ('# -*- coding: latin-1 -*-\n'
+                    's = "\u00e9\u00e9\u00e9"; width = len(s)\n'
+                    'def area(h):  # caf\u00e9 \u00fc\n    return width * h\n'
+                    't = "\u00e9"; total = area(2); total\n')
+        enc = 'latin-1' if name.startswith('latin1') else 'utf-8'
+        if enc == 'utf-8':
+            lib_text = lib_text.replace('# -*- coding: latin-1 -*-', '# plain utf-8 file')
+        with open(os.path.join(base, 'shapes.py'), 'wb') as f:
+            f.write(lib_text.encode(enc))
+        main = 'import shapes\nshapes.width\nshapes.area(3)\nshapes.total\n'
+        with open(os.path.join(base, 'main.py'), 'w') as f:
+            f.write(main)
+        project = jedi.Project(base)
+
+        def disk_lines(p):
+            with _tk.open(p) as f:       # decodes the way Python does (PEP 263)
+                return parso.split_lines(f.read(), keepends=True)
+
+        def faithful(n, how):
+            mp = n.module_path
+            if mp is None or not str(mp).startswith(base + os.sep) or n.line is None \
+                    or n.type in ('module', 'namespace') or not n.name.isidentifier():
+                return
+            out['names_checked'] += 1
+            ls = disk_lines(str(mp))
+            got = text_at(ls, n.line, n.column, len(n.name))
+            lc = n.get_line_code()
+            if got != n.name or lc != ls[n.line - 1]:
+                out['fails'].append({
+                    'site': 'position-not-faithful-to-file-on-disk@%s' % how,
+                    'input': 'disk:%s|%s|%s@%s:%s' % (name, how, n.name, n.line, n.column),
+                    'detail': {'name': n.name, 'pos': [n.line, n.column], 'found': got,
+                               'line_code': lc, 'file': os.path.basename(str(mp)),
+                               'variant': name, 'text': lib_text}})
+        try:
+            p = os.path.join(base, 'shapes.py')
+            if name.endswith('unsaved-first'):
+                # an editor analysed an UNSAVED version of the file a moment ago
+                unsaved = 'import os\n\n\n' + lib_text.replace('width', 'circumference')
+                s0 = jedi.Script(unsaved, path=p, environment=env, project=project)
+                out['evals'] += 1
+                s0.get_names(all_scopes=True, references=True)
+            sc = jedi.Script(path=p, environment=env, project=project)      # text from disk
+            out['evals'] += 1
+            for n in sc.get_names(all_scopes=True, references=True):
+                faithful(n, 'get_names')
+            for (l, c, s_) in ident_tokens(''.join(disk_lines(p))):
+                out['evals'] += 2
+                for n in sc.goto(l, c):
+                    faithful(n, 'goto')
+                for n in sc.infer(l, c):
+                    faithful(n, 'infer')
+            sm = jedi.Script(main, path=os.path.join(base, 'main.py'), environment=env,
+                             project=project)
+            for (l, c, s_) in ident_tokens(main):
+                out['evals'] += 2
+                for n in sm.goto(l, c, follow_imports=True):
+                    faithful(n, 'goto-through-import')
+                for n in sm.infer(l, c):
+                    faithful(n, 'infer-through-import')
+            for n in project.search('area'):
+                faithful(n, 'Project.search')
+        except Exception as e:
+            out['fails'].append({'site': canon.exc_site(e), 'input': 'disk:%s' % name,
+                                 'detail': {'tb': canon.short_tb(e), 'text': lib_text}})
+        return out
+    finally:
+        shutil.rmtree(base, ignore_errors=True)
+
+
 def _work(task):
+    if task['kind'] == 'disk':
+        return check_disk_text(task)
     if task['kind'] == 'history':
         return check_history(task)
     if task['kind'] == 'pf':
@@ -402,7 +490,10 @@ def _work(task):
 
 def _levels(tier):
     lv = [('two-step histories: ask, change shapes.py on disk, ask again',
-           [dict(kind='history', edit=e, tier=tier) for e in sorted(EDITS)])]
+           [dict(kind='history', edit=e, tier=tier) for e in sorted(EDITS)]),
+          ('text read from disk: PEP 263 latin-1 / utf-8 x {path only, unsaved buffer first}',
+           [dict(kind='disk', variant=v, tier=tier) for v in
+            ('latin1', 'utf8', 'latin1-unsaved-first', 'utf8-unsaved-first')])]
     core = [c for c in pf.CARRIER_NAMES if c in pf.CORE]
     if tier == 'quick':
         lv.append(('PF depth<=1 x {inst}', [dict(kind='pf', src='inst', chain=[], tier=tier)] +
